@@ -14,13 +14,12 @@ Fixpoint canon (v : val) : val :=
   | _ => v
   end.
 
-(* Python class is an integer type: int, bool, numpy integer *)
-Definition int_typed (v : val) : bool :=
-  match v with VInt _ | VBool _ => true | _ => false end.
+Definition vclass (v : val) : kclass :=
+  match v with VInt _ => KInt | VBool _ => KBool | VNone => KNone | _ => KOther end.
 
 Definition vto_Z (v : val) : option Z := match v with VInt z => Some z | _ => None end.
 
-Definition vkey (v : val) : key val := (canon v, int_typed v).
+Definition vkey (v : val) : key val := (canon v, vclass v).
 
 Notation vobs := (obs val).
 
@@ -111,17 +110,105 @@ Definition chk_S_go init (ops : list vop) probes (outs : list (res unit)) (obser
   list_eqb Bool.eqb rs (map is_ok outs) &&
   obs_eqb (S_observe val_eqb l' (map vkey probes)) (obs_canon observed).
 
-(* derived indices: the implementation's derived index observed in full against the specification's
-   label computation *)
-Definition chk_S_derived (expect : option (list val)) probes (observed : res vobs) : bool :=
+(* ---- derived indices: the implementation's derived index is observed in full and compared with the
+   specification index over the labels the derivation must produce (S_select / S_drop / S_roll ...) ---- *)
+Definition chk_S_derived (expect : res (list val)) probes (observed : res vobs) : bool :=
   match expect with
-  | None => match observed with Err _ => true | Ok _ => false end
-  | Some l => chk_S_index l probes observed
+  | Err e => match observed with Err e' => String.eqb e e' | Ok _ => false end
+  | Ok l => chk_S_index l probes observed
+  end.
+Definition chk_M_derived (expect : res (list val)) probes (observed : res vobs) : bool :=
+  match expect with
+  | Err e => match observed with Err e' => String.eqb e e' | Ok _ => false end
+  | Ok l => chk_M_index l probes observed
   end.
 
-Definition vS_select (labels : list val) (ps : list Z) : option (list val) :=
-  S_select (map canon labels) ps.
-Definition vS_drop (labels : list val) (ps : list Z) : option (list val) :=
-  Some (S_drop (map canon labels) ps).
-Definition vS_roll (labels : list val) (shift : Z) : option (list val) :=
-  Some (S_roll (map canon labels) shift).
+Fixpoint opt_all {A} (l : list (option A)) : option (list A) :=
+  match l with
+  | [] => Some []
+  | Some a :: t => match opt_all t with Some r => Some (a :: r) | None => None end
+  | None :: _ => None
+  end.
+
+(* positions as NumPy takes them: negative wraps once, otherwise IndexError *)
+Definition norm_positions (n : Z) (ps : list Z) : res (list Z) :=
+  match opt_all (map (fun p => norm_index p n) ps) with Some r => Ok r | None => Err "IndexError" end.
+
+Definition vS_iloc_list (labels : list val) (ps : list Z) : res (list val) :=
+  match norm_positions (zlen labels) ps with
+  | Err e => Err e
+  | Ok qs => match S_select (map canon labels) qs with Some l => Ok l | None => Err "IndexError" end
+  end.
+
+Definition vS_iloc_slice (labels : list val) (s : slice) : res (list val) :=
+  match positions s (zlen labels) with
+  | None => Err "ValueError"
+  | Some qs => match S_select (map canon labels) qs with Some l => Ok l | None => Err "IndexError" end
+  end.
+
+Fixpoint mask_positions (mask : list bool) (i : Z) : list Z :=
+  match mask with
+  | [] => []
+  | b :: m => if b then i :: mask_positions m (i + 1) else mask_positions m (i + 1)
+  end.
+
+Definition vS_iloc_mask (labels : list val) (mask : list bool) : res (list val) :=
+  if negb (Nat.eqb (length mask) (length labels)) then Err "IndexError"
+  else match S_select (map canon labels) (mask_positions mask 0) with Some l => Ok l | None => Err "IndexError" end.
+
+Definition vS_loc_list (labels keys : list val) : res (list val) :=
+  match S_lookup_list val_eqb (map canon labels) (map vkey keys) with
+  | Err e => Err e
+  | Ok qs => match S_select (map canon labels) qs with Some l => Ok l | None => Err "IndexError" end
+  end.
+
+Definition vS_drop_iloc (labels : list val) (ps : list Z) : res (list val) :=
+  match norm_positions (zlen labels) ps with
+  | Err e => Err e
+  | Ok qs => Ok (S_drop (map canon labels) qs)
+  end.
+
+Definition vS_drop_loc (labels keys : list val) : res (list val) :=
+  match S_lookup_list val_eqb (map canon labels) (map vkey keys) with
+  | Err e => Err e
+  | Ok qs => Ok (S_drop (map canon labels) qs)
+  end.
+
+Definition vS_roll (labels : list val) (shift : Z) : res (list val) := Ok (S_roll (map canon labels) shift).
+
+(* relabel with a finite mapping (dict): labels not in the mapping are kept *)
+Fixpoint vassoc (x : val) (m : list (val * val)) : option val :=
+  match m with [] => None | (a, b) :: m' => if val_eqb x (canon a) then Some (canon b) else vassoc x m' end.
+Definition vS_relabel (labels : list val) (m : list (val * val)) : res (list val) :=
+  Ok (map (fun x => match vassoc x m with Some y => y | None => x end) (map canon labels)).
+
+(* sort of integer labels *)
+Definition vint (v : val) : Z := match v with VInt z => z | _ => 0 end.
+Fixpoint zinsert (x : Z) (l : list Z) : list Z :=
+  match l with [] => [x] | y :: ys => if x <=? y then x :: l else y :: zinsert x ys end.
+Definition zsort (l : list Z) : list Z := fold_right zinsert [] l.
+Definition vS_sort_int (labels : list val) (ascending : bool) : res (list val) :=
+  let s := zsort (map vint (map canon labels)) in Ok (map VInt (if ascending then s else rev s)).
+
+(* set operations: the property (C02) fixes that the result is an index holding exactly the set;
+   the order of the result is C06's business *)
+Definition subsetb (a b : list val) : bool := forallb (fun x => memb val_eqb x b) a.
+Definition same_set (a b : list val) : bool := subsetb a b && subsetb b a.
+Definition vset_union (a b : list val) := map canon a ++ map canon b.
+Definition vset_inter (a b : list val) := filter (fun x => memb val_eqb x (map canon b)) (map canon a).
+Definition vset_diff (a b : list val) := filter (fun x => negb (memb val_eqb x (map canon b))) (map canon a).
+
+Definition chk_S_setop (expect : list val) probes (observed : res vobs) : bool :=
+  match observed with
+  | Err _ => false
+  | Ok o => chk_S_index (o_values o) probes observed && same_set (map canon (o_values o)) expect
+  end.
+
+(* oracle sweep: the real AutoMap against am_build / am_get *)
+Definition chk_automap (labels : list val) (observed : res (list (val * Z))) : bool :=
+  match am_build val_eqb (map canon labels), observed with
+  | Ok m, Ok kvs => forallb (fun kv => option_eqb Z.eqb (am_get val_eqb m (canon (fst kv))) (Some (snd kv))) kvs &&
+                    Nat.eqb (length m) (length kvs)
+  | Err e, Err e' => String.eqb e e'
+  | _, _ => false
+  end.
